@@ -89,6 +89,11 @@ def run_shard(shard, ctx, tier):
 
 def mat(i):
     from scipy import sparse
+    # matrix 3 (the one with an all-pruned row) is float32, the dtype the OCR engine produces; it also gets a large logit
+    if i == 3:
+        M = np.asarray(MATS[i], dtype=np.float32)
+        M[0, 0] = 12.0
+        return sparse.csc_matrix(M)
     return sparse.csc_matrix(np.asarray(MATS[i], dtype=np.float64))
 
 
@@ -143,7 +148,7 @@ def check_dense(line, M, ctx, K, desc):
             return
     lp = line.get_full_logprobs()
     ctx.executed()
-    if np.abs(np.exp(lp).sum(axis=1) - 1).max() > 1e-9:
+    if np.abs(np.exp(lp.astype(np.float64)).sum(axis=1) - 1).max() > (1e-9 if lp.dtype == np.float64 else 1e-5):   # float32 logits: float32 round-off
         ctx.violation('dense-rows-normalised', f'{K}/get_full_logprobs/not-normalised', f'{desc}: row sums {np.exp(lp).sum(axis=1)}')
 
 
